@@ -39,7 +39,7 @@ def withWorkloadLocked (node : String) (id : Nat) (f : Wl R → M R Unit) : M R 
 send one message. -/
 def removeOne (body : Wl R → M R Unit) (node : String) (id : Nat) : M R Unit := do
   let ok ← attempt (withWorkloadLocked node id body)
-  emit ⟨node, id, ok⟩
+  emit ⟨node, id, ok, none⟩
 
 /-- the per-node part: `withNodePodLocked` (filterNodes reads the node), then the workloads in order.
 `failMsg`: RemoveWorkload sends one anonymous failure message when the node cannot be locked,
@@ -47,7 +47,7 @@ DissociateWorkload sends nothing. -/
 def removeOnNode (body : Wl R → M R Unit) (failMsg : Bool) (node : String) (ids : List Nat) : M R Unit := do
   let ok ← attempt (readStep "storeGetNode" node)
   if ok then forEach ids (removeOne body node)
-  else if failMsg then emit ⟨"", 0, false⟩ else pure ()
+  else if failMsg then emit ⟨"", 0, false, none⟩ else pure ()
 
 /-- `groups`: the ids grouped by node (visit order of the Go map), `firstNode`: the node field the
 first read is recorded under (the node when there is a single id, "" otherwise). All ids must
